@@ -14,6 +14,13 @@ Arguments Raise {A}.
 
 Definition of_option {A} (o : option A) : res A := match o with Some a => Ok a | None => Raise end.
 
+(* for x in l: <body>   where the body only updates the loop-carried variables [st] or raises *)
+Fixpoint py_for {A S : Type} (l : list A) (st : S) (body : A -> S -> res S) : res S :=
+  match l with
+  | [] => Ok st
+  | x :: r => match body x st with Ok st' => py_for r st' body | _ => Raise end
+  end.
+
 (* bytes([x]) : ValueError outside range(256) *)
 Definition py_bytes1 (x : Z) : option bytes := if (0 <=? x) && (x <? 256) then Some [x] else None.
 
